@@ -14,6 +14,7 @@ from . import _partner as P
 
 ID = "C07"
 OPTIMISED_STRIDE = {"quick": 10, "thorough": 20}      # every k-th shard once more in an interpreter started with -O
+CHAIN_STRIDE = {'quick': 12, 'thorough': 40}      # every k-th shard is re-run in chains inside one process (non-initial process states)
 LEVEL = "model_checking"
 ENGINE = "E2"
 TECHNIQUE = "stateless exploration of the real Commissioning generator against a population of spec-model gear: all random-draw histories within R rounds (slice A) and all configurations x scripted draw patterns (slice B)"
